@@ -119,6 +119,15 @@ def o2_condition(committed, work):
 
 
 def run_scenario(sc):
+    out = _run_scenario(sc)
+    for _ in range(2):
+        if not any(sig == "runner-exception" for sig, _d in out[0]):
+            break
+        out = _run_scenario(sc)       # transient environment trouble (busy machine): retry
+    return out
+
+
+def _run_scenario(sc):
     failures = []
     ncommits = 0
     corr = []
